@@ -20,6 +20,10 @@ Fixpoint sdel (i : Z) (l : list Z) : list Z := match l with
 Definition first_ge (i : Z) (l : list Z) : option Z := List.find (fun x => i <=? x) l.
 Definition first_gt (i : Z) (l : list Z) : option Z := List.find (fun x => i <? x) l.
 
+(* the part of an ascending list from its first element >= i on *)
+Fixpoint suffix_ge (i : Z) (l : list Z) : list Z := match l with
+  | [] => [] | x :: r => if i <=? x then x :: r else suffix_ge i r end.
+
 Record aiter := { atree : nat; aended : bool; aval : Z }.
 Record aworld := { asets : list (list Z); aiters : list aiter }.
 Definition ainit : aworld := {| asets := [[]]; aiters := [] |}.
@@ -73,6 +77,10 @@ Definition proj (o : op) (x : out) : aout :=
   | _ => (f, if f then v else 0, l)
   end.
 
+(* the abstract observations of a concrete run *)
+Definition observe (ops : list op) (outs : list out) : list aout :=
+  map (fun p => proj (fst p) (snd p)) (combine ops outs).
+
 (* an op list is well-formed when it only names trees / iterators that exist *)
 Fixpoint wf_ops (nt ni : nat) (ops : list op) : Prop := match ops with
   | [] => True
@@ -90,6 +98,10 @@ Fixpoint avl (t : tree) : Prop := match t with
   | N _ l _ b r => avl l /\ avl r /\ b = height r - height l /\ -1 <= b <= 1 end.
 Definition bst (t : tree) : Prop := sset (elements t).
 
+(* node identities (Go: node objects) of a tree, in preorder *)
+Fixpoint ids (t : tree) : list nat := match t with
+  | E => [] | N id l _ _ r => id :: ids l ++ ids r end.
+
 (* ---- int64 range of keys; reachable worlds -------------------------------- *)
 Definition MINI : Z := -9223372036854775808.
 Definition in_range (x : Z) : Prop := MINI <= x <= MAXI.
@@ -102,6 +114,10 @@ Definition keys_in_range (ops : list op) : Prop := Forall op_in_range ops.
 Inductive reach : world -> Prop :=
   | reach_init : reach init
   | reach_step w o : reach w -> op_in_range o -> reach (fst (step w o)).
+
+(* the iterator [nth] falls back to when an index names no iterator *)
+Definition dflt_iter : iter := {| itree := O; inode := None; ival := 0 |}.
+Definition dflt_aiter : aiter := {| atree := O; aended := true; aval := 0 |}.
 
 (* abstraction of a concrete iterator / world (node identities forgotten) *)
 Definition abs_iter (it : iter) : aiter :=
